@@ -9,7 +9,7 @@
 (*   files : set of [name, py]  (name = directory name \o <<stem>>;         *)
 (*           py = it is a .py file)                                          *)
 (*   stmts : set of import statements                                       *)
-(*           [file, form, level, module, names, pos]                         *)
+(*           [file, form, level, module, names, pos, lay]                    *)
 (*             form "import":  import <module>           (names = <<>>)      *)
 (*             form "from":    from <level dots><module> import <names>      *)
 (*                             (module may be <<>>; a name may be "*")       *)
@@ -17,6 +17,12 @@
 (*                  statement-list slots, <<>> = module level).  NO operator *)
 (*                  below looks at pos: an import statement means the same   *)
 (*                  wherever it stands (C02).                                 *)
+(*             lay: how the statement is laid out in the source text: on a    *)
+(*                  line of its own ("line"), after another statement on the  *)
+(*                  same line ("semicolon"), on the header line of the        *)
+(*                  compound statement it belongs to ("inline": if x: import  *)
+(*                  a), or over several physical lines ("paren", "backslash"; *)
+(*                  real trees: "multiline").  No operator looks at lay.      *)
 (* A configuration c is a record                                            *)
 (*   mpath    : the directory scanned (module_path), a member of P.dirs      *)
 (*   excluded : entries (dirs / files) DIRECTLY matched by an exclusion      *)
